@@ -10,6 +10,7 @@ mod angles;
 mod curve;
 mod topo;
 mod closest;
+mod ray;
 
 pub struct State {
     pub slots: std::collections::HashMap<String, Box<dyn std::any::Any>>,
@@ -28,6 +29,7 @@ fn dispatch(rec: &Value, st: &mut State) -> Value {
         "curve" => curve::exec(rec, st),
         "topo" => topo::exec(rec, st),
         "closest" => closest::exec(rec, st),
+        "ray" => ray::exec(rec, st),
         _ => json!({"unknown_module": true}),
     }
 }
